@@ -3,6 +3,7 @@
 package app
 
 import (
+	"io"
 	"io/fs"
 	"log/slog"
 	"net/http"
@@ -10,6 +11,7 @@ import (
 	"os"
 	"strings"
 
+	m "github.com/Eyevinn/dash-mpd/mpd"
 	"github.com/Eyevinn/mp4ff/mp4"
 )
 
@@ -95,6 +97,9 @@ func vStubRunRecover(f func()) bool {
 	f()
 	return false
 }
+
+// XML serialisation of the MPD is outside: the stub reports a written document
+func vStubMPDWrite(mpd *m.MPD, w io.Writer, indent string, withHeader bool) (int, error) { return 1, nil }
 
 func vHTTPServer(a *asset) *Server {
 	am := &assetMgr{vodFS: os.DirFS("testdata/assets"), assets: map[string]*asset{a.AssetPath: a}}
@@ -236,8 +241,21 @@ var vIntLits = []string{"abc", "", "1.5", "-"}
 var vFloatLits = []string{"1.5", "abc", "", "-1.5", "0.001", "inf"} // "inf" only for ato
 
 // vURLParam returns "key_value/" for the tag-th parameter and whether the value is a malformed number.
+// keys that influence an MPD (indices into vURLKeys): start ast stop startrel stoprel dur mup periods etp etpDuration
+// continuous peroff scte35 utc snr ato ltgt spd chunkdur timesubsstpp timesubsdur patch annexI
+var vMPDKeys = []int{0, 1, 2, 3, 4, 5, 9, 13, 15, 16, 18, 21, 22, 23, 24, 25, 26, 27, 30, 31, 33, 39, 40}
+
 func vURLParam(tag string) (part string, malformed bool, key string) {
-	ki := vConc(vInt(tag+"_key", 0, len(vURLKeys)-1))
+	return vURLParamFrom(tag, nil)
+}
+
+func vURLParamFrom(tag string, keys []int) (part string, malformed bool, key string) {
+	var ki int
+	if keys == nil {
+		ki = vConc(vInt(tag+"_key", 0, len(vURLKeys)-1))
+	} else {
+		ki = keys[vConc(vInt(tag+"_mkey", 0, len(keys)-1))]
+	}
 	k := vURLKeys[ki]
 	switch k.kind {
 	case 0:
@@ -272,6 +290,9 @@ func init() {
 	vHarnesses["vH_C08_url_two_seg"] = vH_C08_url_two_seg
 	vHarnesses["vH_C08_url_baseurl"] = vH_C08_url_baseurl
 	vHarnesses["vH_C08_url_after_bad"] = vH_C08_url_after_bad
+	vHarnesses["vH_C08_url_one_mpd"] = vH_C08_url_one_mpd
+	vHarnesses["vH_C08_url_startstop_mpd"] = vH_C08_url_startstop_mpd
+	vHarnesses["vH_C08_url_periods_mpd"] = vH_C08_url_periods_mpd
 	vHarnesses["vH_C08_url_before_bad"] = vH_C08_url_before_bad
 }
 
@@ -280,6 +301,14 @@ func vH_C08_url_one_init()  { vC08URL(1, 1) }
 func vH_C08_url_one_audio() { vC08URL(1, 2) }
 func vH_C08_url_two_seg()   { vC08URL(2, 0) }
 func vH_C08_url_baseurl()   { vC08URL(1, 3) }
+
+// MPD requests (the real LiveMPD behind the real handler; small time-shift window so that the timeline loops stay
+// within the unwinding bound): one arbitrary parameter, alone and together with periods_60
+func vH_C08_url_one_mpd()     { vC08URL(1, 4) }
+func vH_C08_url_periods_mpd() { vC08URL(1, 5) }
+
+// start and stop times in any relation (stop before start, negative, huge), single- and multi-period MPD
+func vH_C08_url_startstop_mpd() { vC08URL(0, 6) }
 
 // any parameter after / before a parameter whose value already failed to parse (the parser keeps going and only
 // reports the accumulated error at the end, so every later key runs with the converter in its error state)
@@ -294,7 +323,14 @@ func vC08URL(nParams, target int) {
 	vPrepareRegexps(a)
 	now := vInt("now1", 0, 1<<42)
 	segID := vInt("segID", 0, 1<<30) // later segments: 64-bit overflow of time x timescale (outside every claim)
-	p1, bad1, k1 := vURLParam("p1")
+	var mpdKeys []int
+	if target == 4 || target == 5 {
+		mpdKeys = vMPDKeys
+	}
+	p1, bad1, k1 := "", false, ""
+	if nParams > 0 {
+		p1, bad1, k1 = vURLParamFrom("p1", mpdKeys)
+	}
 	params := p1
 	malformed := bad1
 	twoKeysSame := false
@@ -325,6 +361,16 @@ func vC08URL(nParams, target int) {
 	case 2:
 		vStubRep, vStubSegID = a.Reps["A48"], segID
 		path = "/livesim2/" + params + vStrf("testpic_2s/A48/%d.m4s", segID)
+	case 6:
+		pre := "/livesim2/tsbd_4/"
+		if vBool("multiPeriod") {
+			pre += "periods_60/"
+		}
+		path = pre + vStrf("start_%d/stop_%d/", vInt("startS", 0, 1<<32), vInt("stopS", -(1<<33), 1<<33)) + "testpic_2s/Manifest.mpd"
+	case 4:
+		path = "/livesim2/tsbd_4/" + params + "testpic_2s/Manifest.mpd"
+	case 5:
+		path = "/livesim2/tsbd_4/periods_60/" + params + "testpic_2s/Manifest.mpd"
 	case 3:
 		vStubRep, vStubSegID = a.Reps["V300"], segID
 		bu := vInt("bu", 0, 1<<62)
